@@ -7,7 +7,10 @@ ID="$1"; WT="$2"; PROP="$3"; TESTS="$4"
 D=/verif/seeded/$ID; mkdir -p $D
 cp $WT/_seed/patch.diff $WT/_seed/meta.json $D/ 2>/dev/null
 cp $WT/_seed/demo.py $D/ 2>/dev/null
-LOG=$D/confirm.log; : > $LOG
+LOG=$D/confirm.log
+PHASE="${PHASE:-AB}"   # A = demo with/without + existing tests, in the worktree only; B = patch applied to /repo, check run, undone
+case "$PHASE" in *A*) : > $LOG ;; esac
+case "$PHASE" in *A*)
 cd $WT || exit 2
 git checkout -q -- . ; git apply $D/patch.diff || { echo "patch does not apply" | tee -a $LOG; exit 2; }
 (setsid -w timeout -k 5 300 env PYTHONPATH=$WT /venv/bin/python $D/demo.py > $D/demo_with.txt 2>&1; echo "demo with change: exit=$?" >> $LOG)
@@ -15,6 +18,9 @@ git checkout -q -- . ; git apply $D/patch.diff || { echo "patch does not apply" 
 git checkout -q -- .
 (setsid -w timeout -k 5 300 env PYTHONPATH=$WT /venv/bin/python $D/demo.py > $D/demo_without.txt 2>&1; echo "demo without change: exit=$?" >> $LOG)
 git apply $D/patch.diff
+;;
+esac
+case "$PHASE" in *B*) ;; *) cat $LOG; exit 0 ;; esac
 cd /repo && [ -z "$(git status --porcelain --untracked-files=no)" ] || { echo "/repo dirty"; exit 2; }
 git apply $D/patch.diff || { echo "patch does not apply to /repo" | tee -a $LOG; exit 2; }
 cp /verif/evidence/$PROP.json /tmp/.evidence_$PROP.json 2>/dev/null
